@@ -867,7 +867,7 @@ pub fn c04_h_spaces(tier: Tier) -> Vec<Space> {
 
 pub fn c05_h_spaces(tier: Tier) -> Vec<Space> {
     let cfg = SvcCfg::basic();
-    let ops = ["c1", "c0", "r", "e", "r!", "e!"];
+    let ops = ["c1", "c0", "r", "e", "r!", "e!", "u"];
     let maxlen = if tier == Tier::Quick { 4 } else { 5 };
     let mut size = 0u64;
     for l in 0..=maxlen {
@@ -1339,7 +1339,7 @@ pub fn plan_for(prop: &str, tier: Tier) -> Option<Plan> {
             sp.extend(crate::ksim::c05_spaces(tier));
             let mut p = h_plan(
                 sp,
-                "H: every script over {set_continues(true), set_continues(false), reply, reply_error, reply-ignoring-the-result, reply_error-ignoring-the-result} up to length 4 (quick) / 5 (thorough) x request flags {none, more, oneway, more+oneway, more:false, more:false+oneway, more with the other flags spelled out as false, all three false}, followed by a normal request (complete), plus seeded random longer scripts with followers, cuts and short writes. Oracle: wire equals the model (continues only when more was asked; a gated reply writes nothing) and every reply call returned CallContinuesMismatch exactly when gated. K: scripted server reply streams (k continues, then result or error) against the real client iterator, followed by further calls.",
+                "H: every script over {set_continues(true), set_continues(false), reply, reply_error, reply-ignoring-the-result, reply_error-ignoring-the-result, to_upgraded()} up to length 4 (quick) / 5 (thorough) x request flags {none, more, oneway, more+oneway, more:false, more:false+oneway, more with the other flags spelled out as false, all three false}, followed by a normal request (complete), plus seeded random longer scripts with followers, cuts and short writes. Oracle: wire equals the model (continues only when more was asked; a gated reply writes nothing) and every reply call returned CallContinuesMismatch exactly when gated. K: scripted server reply streams (k continues, then result or error) against the real client iterator, followed by further calls.",
                 lv_expl,
             );
             p.real.extend(crate::ksim::REAL_K);
